@@ -1944,6 +1944,9 @@ class Interp:
                         *[v for _, v in oks])), None)]
                 except Exception:
                     pass
+        if kind(fn) == 'builtin' and fn[1] in _PURE_PREDICATES:
+            # pure: two evaluations with equal arguments are the same value
+            site = None
         call_t = ('call', target, fn, args, kwargs, site)
         results = []
         # exception edge
@@ -2120,6 +2123,8 @@ class Interp:
 
 # ---------------------------------------------------------------------------
 
+_PURE_PREDICATES = {'isinstance', 'issubclass', 'hasattr', 'callable', 'len',
+                    'type', 'id'}
 _BINOPS_BY_NAME = {v[0]: v[1] for v in _BINOPS.values()}
 _CMPOPS_BY_NAME = {v[0]: v[1] for v in _CMPOPS.values()}
 _CONST_METHODS = {'join', 'startswith', 'endswith', 'encode', 'decode',
